@@ -28,7 +28,7 @@ CFGS = [{}, {"loop": 3}, {"solver_timeout_branching": 0}, {"storage_layout": "ge
 def correspond(ctx):
     from vlib import sevmcheck
 
-    n = ctx.scale(60, 1500)
+    n = ctx.scale(60, 1000)
     sevmcheck.run(ctx, ID, dict(FEATURES), n_scenarios=n, n_random_inputs=ctx.scale(6, 12), cfgs=CFGS,
                   malformed=ctx.scale(25, 300))
     # code with symbolic immutables (concrete | PUSH32 <symbolic word> | concrete), jump destinations located after the holes
@@ -45,7 +45,7 @@ def correspond(ctx):
                   gen=lambda rng: proggen.gen_concrete_grid(rng, next(grid_ops)), corpus=False)
     plan = proggen.wordmix_plan() * 2
     it = iter(plan)
-    sevmcheck.run(ctx, ID, {}, n_scenarios=len(plan) + ctx.scale(20, 1500), n_random_inputs=ctx.scale(4, 10), cfgs=[{}],
+    sevmcheck.run(ctx, ID, {}, n_scenarios=len(plan) + ctx.scale(20, 500), n_random_inputs=ctx.scale(4, 10), cfgs=[{}],
                   gen=lambda rng: proggen.gen_wordmix(rng, next(it, None)), corpus=False)
 
 
